@@ -386,18 +386,18 @@ theorem cp_bodies_of_mem {b : Batch} {l : List Batch} (hwf : AllWF l) (h : b ∈
     next start finds is at or beyond every executed command, and nothing is
     replayed twice. (With `crash_loses_no_write`: the stored position is exactly
     the boundary between executed and not executed.) -/
-theorem txn_crash_repeats_nothing (c : SCfg) (hc : c.txnMode = true) (hres : c.resume = true)
+theorem txn_crash_repeats_nothing_prefix (c : SCfg) (hc : c.txnMode = true) (hres : c.resume = true)
     (evs : List Ev) (hm : SMono initS.txn initS.lastOffset evs) (hnn : NonNeg evs)
     (t : TState) (hq : t.queued = none) (k : Nat) :
     let out := (run c initS evs).2
-    ∃ E, SameData (applyLog t (out.flatten.take k)) (E.foldl execReq t) ∧
+    ∃ E, E <+: bodies out ∧ SameData (applyLog t (out.flatten.take k)) (E.foldl execReq t) ∧
       ∀ y, 2 * y ∈ keysB E → ∃ o ∈ cpOffsetsB E, y ≤ o := by
   simp only
   have hwf := run_wf c initS evs
   have hshape := run_shape_txn c hc hres initS (Or.inl rfl) evs hnn
   have hsorted := wire_ordered c evs hm
-  obtain ⟨m, E', hsame, hE'⟩ := crash_whole_batches (run c initS evs).2 hwf t hq k
-  refine ⟨_, hsame, ?_⟩
+  obtain ⟨m, E', hsame, hE', hpre⟩ := crash_whole_batches_prefix (run c initS evs).2 hwf t hq k
+  refine ⟨_, hpre, hsame, ?_⟩
   intro y hy
   rw [keysB_append] at hy
   have hwfm : AllWF ((run c initS evs).2.take m) := fun b hb => hwf b (List.mem_of_mem_take hb)
@@ -430,6 +430,16 @@ theorem txn_crash_repeats_nothing (c : SCfg) (hc : c.txnMode = true) (hres : c.r
         have := congrArg List.length hstrip
         simp at this
         omega
+
+/-- `txn_crash_repeats_nothing_prefix` without the wire-prefix component -/
+theorem txn_crash_repeats_nothing (c : SCfg) (hc : c.txnMode = true) (hres : c.resume = true)
+    (evs : List Ev) (hm : SMono initS.txn initS.lastOffset evs) (hnn : NonNeg evs)
+    (t : TState) (hq : t.queued = none) (k : Nat) :
+    let out := (run c initS evs).2
+    ∃ E, SameData (applyLog t (out.flatten.take k)) (E.foldl execReq t) ∧
+      ∀ y, 2 * y ∈ keysB E → ∃ o ∈ cpOffsetsB E, y ≤ o := by
+  obtain ⟨E, _, h1, h2⟩ := txn_crash_repeats_nothing_prefix c hc hres evs hm hnn t hq k
+  exact ⟨E, h1, h2⟩
 
 /-- **The next start resumes in the database the position was written in.** Let a
     target that held no checkpoint die after ANY number `k` of the requests of ANY
